@@ -993,3 +993,82 @@ Example C07_lang_example :
   snd (lref a_is_lower a_lower [] id_order (fs_empty, []) h_lang) =
     [[false; true]; [false; true]; []; []; [false; false]; []; []; [true; false; true]; [true; false; true]; []; []; [false; false]].
 Proof. exact lang_example. Qed.
+
+(* ================================================================================================== *)
+(*  crash, restart, further adds: the left-over temporary file (Model/C07CrashThen.v; seed c07-6)       *)
+(* ================================================================================================== *)
+Require Import Tables_c07save C07CrashThen C07CrashThenProofs.
+
+(* the calls of save_dict as the translator reads them off dictionary_io.rs on every run (Tables_c07save.v: create_dir_all,
+   File::create(&tmp_path) = create + TRUNCATE, flush, sync_all, rename(tmp, path); the module raises on OpenOptions & co.) are
+   the non-write effects of the modelled save_effects, in order: the crash and power-loss theorems are about THIS sequence *)
+Theorem C07_save_frame : forall (p : path) (ws : list word), frame_of (save_effects p ws) = save_dict_frame.
+Proof. exact save_frame. Qed.
+Check C07_save_frame : forall (p : path) (ws : list word), frame_of (save_effects p ws) = save_dict_frame.
+Print Assumptions C07_save_frame.
+
+(* the add of w dies at ANY crash point — whatever it leaves in <name>.tmp, complete, partial or torn — then ANY further completed
+   adds ws to the same dictionary (shorter or longer words): the dictionary reloads to exactly old + ws or old + w + ws, the file
+   system stays well-formed, and no temporary file is left *)
+Theorem C07_crash_then_add : forall (is_lower : N -> bool) (lower : N -> list N) (iter_order : list word -> list word),
+  (forall l : list word, Permutation (iter_order l) l) ->
+  forall (p : path) (w : word) (s s' : fsys) (ws : list word),
+  fs_ok is_lower lower s -> is_tmp p = false -> line_safe w -> Forall line_safe ws ->
+  In s' (crash_states None (s, [])
+           (save_effects p (words_iter iter_order (append_word is_lower lower (dict_at is_lower lower p s) w)))) ->
+  (dict_equiv (dict_at is_lower lower p (adds_to is_lower lower iter_order p ws s'))
+              (extend_words is_lower lower (dict_at is_lower lower p s) ws) \/
+   dict_equiv (dict_at is_lower lower p (adds_to is_lower lower iter_order p ws s'))
+              (extend_words is_lower lower (append_word is_lower lower (dict_at is_lower lower p s) w) ws)) /\
+  fs_ok is_lower lower (adds_to is_lower lower iter_order p ws s') /\
+  (ws <> [] -> fs_read (TmpP p) (adds_to is_lower lower iter_order p ws s') = None).
+Proof. exact crash_then_add. Qed.
+Check C07_crash_then_add : forall (is_lower : N -> bool) (lower : N -> list N) (iter_order : list word -> list word),
+  (forall l : list word, Permutation (iter_order l) l) ->
+  forall (p : path) (w : word) (s s' : fsys) (ws : list word),
+  fs_ok is_lower lower s -> is_tmp p = false -> line_safe w -> Forall line_safe ws ->
+  In s' (crash_states None (s, [])
+           (save_effects p (words_iter iter_order (append_word is_lower lower (dict_at is_lower lower p s) w)))) ->
+  (dict_equiv (dict_at is_lower lower p (adds_to is_lower lower iter_order p ws s'))
+              (extend_words is_lower lower (dict_at is_lower lower p s) ws) \/
+   dict_equiv (dict_at is_lower lower p (adds_to is_lower lower iter_order p ws s'))
+              (extend_words is_lower lower (append_word is_lower lower (dict_at is_lower lower p s) w) ws)) /\
+  fs_ok is_lower lower (adds_to is_lower lower iter_order p ws s') /\
+  (ws <> [] -> fs_read (TmpP p) (adds_to is_lower lower iter_order p ws s') = None).
+Print Assumptions C07_crash_then_add.
+
+(* ... because the create truncates: whatever the temporary sibling holds before an add, every file is the same afterwards *)
+Theorem C07_leftover_tmp_irrelevant : forall (is_lower : N -> bool) (lower : N -> list N) (iter_order : list word -> list word)
+    (p : path) (w : word) (s : fsys) (c : content) (q : path),
+  is_tmp p = false ->
+  fs_read q (add_to is_lower lower iter_order p w (fs_write (TmpP p) c s)) = fs_read q (add_to is_lower lower iter_order p w s).
+Proof. exact leftover_tmp_irrelevant. Qed.
+Check C07_leftover_tmp_irrelevant : forall (is_lower : N -> bool) (lower : N -> list N) (iter_order : list word -> list word)
+    (p : path) (w : word) (s : fsys) (c : content) (q : path),
+  is_tmp p = false ->
+  fs_read q (add_to is_lower lower iter_order p w (fs_write (TmpP p) c s)) = fs_read q (add_to is_lower lower iter_order p w s).
+Print Assumptions C07_leftover_tmp_irrelevant.
+
+(* the truncation is load-bearing (what-if over save_words_notrunc = OpenOptions write + create WITHOUT truncate; not the code):
+   {alpha}; the add of fragilisticword dies in crash state 61 of 64 (after the flush: user.txt.tmp = "alpha\nfragilisticword\n");
+   add zulu: the code reloads to {alpha, zulu}; without truncation to {alpha, zulu, listicword}; a longer later word hides it *)
+Example C07_notrunc_refuted :
+  let s1 := run_fs a_is_lower a_lower [] id_order s_alpha [CrashAdd SUser w_long crash_ix] in
+  length (add_crash_states a_is_lower a_lower id_order SUser w_long s_alpha) = 64 /\
+  fs_read (TmpP UserP) s1 = Some (Clean (serialize [w_alpha; w_long])) /\
+  option_map words_of (load_dict a_is_lower a_lower UserP s1) = Some [w_alpha] /\
+  option_map words_of (load_dict a_is_lower a_lower UserP (add_to a_is_lower a_lower id_order UserP w_zulu s1)) = Some [w_alpha; w_zulu] /\
+  option_map words_of (load_dict a_is_lower a_lower UserP (add_to_notrunc a_is_lower a_lower id_order UserP w_zulu s1))
+    = Some [w_alpha; w_zulu; [108; 105; 115; 116; 105; 99; 119; 111; 114; 100]%N] /\
+  option_map words_of (load_dict a_is_lower a_lower UserP
+     (add_to_notrunc a_is_lower a_lower id_order UserP (w_long ++ w_zulu) s1)) = Some [w_alpha; w_long ++ w_zulu].
+Proof. exact notrunc_refuted. Qed.
+(* non-vacuity of C07_crash_then_add on that crash state: further adds zulu, gamma *)
+Example C07_crash_then_add_example :
+  let s1 := nth crash_ix (add_crash_states a_is_lower a_lower id_order SUser w_long s_alpha) s_alpha in
+  In s1 (crash_states None (s_alpha, [])
+           (save_effects UserP (words_iter id_order (append_word a_is_lower a_lower (dict_at a_is_lower a_lower UserP s_alpha) w_long)))) /\
+  option_map words_of (load_dict a_is_lower a_lower UserP (adds_to a_is_lower a_lower id_order UserP [w_zulu; w_gamma] s1))
+    = Some [w_alpha; w_zulu; w_gamma] /\
+  fs_read (TmpP UserP) (adds_to a_is_lower a_lower id_order UserP [w_zulu; w_gamma] s1) = None.
+Proof. split; [apply nth_In; vm_compute; lia|vm_compute; split; reflexivity]. Qed.
